@@ -28,6 +28,7 @@ class TranslateError(Exception):
 
 TOK = re.compile(r'''
     (?P<ws>\s+|//[^\n]*|/\*.*?\*/)
+  | (?P<str>"(?:[^"\\]|\\.)*"|'(?:[^'\\]|\\.)')
   | (?P<num>0x[0-9a-fA-F_]+(?:_?[ui](?:8|16|32|64|128|size))?|0b[01_]+(?:_?[ui](?:8|16|32|64|128|size))?|0o[0-7_]+|[0-9][0-9_]*(?:_?[ui](?:8|16|32|64|128|size))?)
   | (?P<id>[A-Za-z_][A-Za-z0-9_]*!?)
   | (?P<op><<=|>>=|\.\.=|::|->|=>|==|!=|<=|>=|&&|\|\||<<|>>|\+=|-=|\*=|/=|%=|&=|\|=|\^=|\.\.|[-+*/%&|^!<>=.,;:(){}\[\]#?@])
